@@ -598,38 +598,80 @@ def run_sel_width(res, ast):
         isun = default is not None and any(m.get("name") in ("unimplemented", "panic", "unreachable")
                                            for m in walk_t(default["body"], "Macro"))
         res.check(isun, "SEL-WIDTH", dk, where(CODEGEN, fn, h), f"{h}: other widths must be rejected (unimplemented!)")
-    # mem_param
+    # mem_param: evaluated for each width with a symbolic index
     try:
+        from rusteval import Interp as _I, Env as _E, Unanalysable as _U, Reached as _R, ReturnEx as _Ret, Poly as _P, Opt as _O, Some as _S, NONE as _N
         f = ast.fn(CODEGEN, "mem_param", container="impl CodeGen")
         fn = f["node"]
-        arms, default = bits_match(fn)
         pn = [p["pat"]["name"] for p in fn["sig"]["inputs"] if p["t"] == "Arg"][0]
+
+        class MP(_I):
+            def __init__(self, w):
+                super().__init__()
+                self.w = w
+
+            def path_value(self, name, node):
+                if name == "C::BITS":
+                    return self.w
+                raise _U(f"path {name}")
+
+            def call(self, name, targs, args, node):
+                if name == "Reg::mem":
+                    return ("reg", "mem")
+                if name == "RegMem::Mem" and len(args) == 4:
+                    return ("Mem",) + tuple(args)
+                if name in ("mem::size_of", "std::mem::size_of", "size_of"):
+                    return self.w // 8
+                raise _U(f"call {name}")
+
+            def cast(self, v, ty, node):
+                return v
+
+            def lit(self, l):
+                v = super().lit(l)
+                return v
+
+            def binary(self, op, l, r, node):
+                if op == "*" and isinstance(l, _P) and isinstance(r, int):
+                    return l * _P.const(r)
+                if op == "*" and isinstance(r, _P) and isinstance(l, int):
+                    return r * _P.const(l)
+                if op == "/" and isinstance(l, int) and isinstance(r, int) and r:
+                    return l // r
+                return super().binary(op, l, r, node)
+
+            def eval(self, e, env):
+                if e.get("t") == "PathExpr" and e["path"]["name"] == "self":
+                    return "self"
+                return super().eval(e, env)
         for w in (8, 16, 32, 64):
             key = f"{CODEGEN}|mem_param|{w}"
-            if w not in arms:
-                res.bad("SEL-WIDTH", key, where(CODEGEN, fn, "mem_param"), f"mem_param: no arm for width {w}")
-                continue
-            b = strip_paren(arms[w]["body"])
-            wh = where(CODEGEN, arms[w], "mem_param")
-            good = False
-            why = ""
-            if b["t"] == "Call" and path_name(b["func"]) == "RegMem::Mem" and len(b["args"]) == 4:
-                base, idx, scale, disp = [strip_paren(x) for x in b["args"]]
-                base_ok = (base["t"] == "Call" and path_name(base["func"]) == "Some" and
-                           base["args"][0]["t"] == "Call" and path_name(base["args"][0]["func"]) == "Reg::mem")
-                idx_ok = path_name(idx) == "None"
-                # disp must be (w/8) * idx as i32
-                k = None
-                d = disp
-                if d["t"] == "Cast" and path_name(strip_paren(d["expr"])) == pn:
-                    k = 1
-                elif d["t"] == "Binary" and d["op"] == "*":
-                    for a_, b_ in ((d["left"], d["right"]), (d["right"], d["left"])):
-                        a_, b_ = strip_paren(a_), strip_paren(b_)
-                        if int_lit(a_) is not None and b_["t"] == "Cast" and path_name(strip_paren(b_["expr"])) == pn:
-                            k = int_lit(a_)
-                good = base_ok and idx_ok and k == w // 8
-                why = f"base Reg::mem(): {base_ok}, no index: {idx_ok}, byte scale {k} (need {w // 8})"
-            res.check(good, "SEL-WIDTH", key, wh, f"mem_param width {w}: displacement must be {w // 8} * {pn} off Reg::mem(); {why}")
+            wh = where(CODEGEN, fn, "mem_param")
+            it = MP(w)
+            env = _E()
+            env.bind(pn, _P.var("idx"))
+            try:
+                try:
+                    v = it.exec_block(fn["body"], env)
+                except _Ret as r_:
+                    v = r_.value
+                good = isinstance(v, tuple) and v[0] == "Mem" and v[1] == _S(("reg", "mem")) and v[2] == _N and v[3] == 1 and v[4] == _P.var("idx") * _P.const(w // 8)
+                why = f"it is {v!r}"
+            except (_U, _R, KeyError, TypeError) as u_:
+                good, why = False, f"cannot be analysed (fail closed): {u_}"
+            res.evaluations += 1
+            res.check(good, "SEL-WIDTH", key, wh, f"mem_param width {w}: the operand must be [Reg::mem() + {w // 8} * {pn}] without index register; {why}")
+        for w in (4, 128):
+            it = MP(w)
+            env = _E()
+            env.bind(pn, _P.var("idx"))
+            try:
+                it.exec_block(fn["body"], env)
+                rej = False
+            except _R:
+                rej = True
+            except (_U, _Ret, KeyError, TypeError):
+                rej = False
+            res.check(rej, "SEL-WIDTH", f"{CODEGEN}|mem_param|other-{w}", where(CODEGEN, fn, "mem_param"), "mem_param: other widths must be rejected (unimplemented!)")
     except Missing as m:
         res.missing("SEL-WIDTH", m)
